@@ -38,7 +38,7 @@ CONFIG = dict(
     nshards={"quick": 8, "thorough": 16},
     timeout={"quick": 900, "thorough": 5400},
     required_counters=("gate_checks", "returned_loads_compared", "nonreturning_effect_checks",
-                       "failpoints_fired", "toctou_swaps"),
+                       "failpoints_fired", "toctou_swaps", "executed_vs_analysed_compared"),
 )
 
 RANKS = ["LIKELY_SAFE", "POSSIBLY_UNSAFE", "SUSPICIOUS", "LIKELY_UNSAFE", "LIKELY_OVERTLY_MALICIOUS",
@@ -199,8 +199,58 @@ def make_stream(ctx, kind, data):
 SWAPPED = b"cvp_sink\nhit\n(S'SWAPPED'\ntR."
 
 
+class PassSwapStream(io.BytesIO):
+    """Seekable stream whose content is replaced (by equal-length bytes) as soon as a read has
+    delivered the last byte of the pickle for the first time, i.e. right after the first pass."""
+
+    def __init__(self, first, second, agg):
+        super().__init__(first)
+        self._end = len(first)
+        self._second = second
+        self._agg = agg
+        self.swapped = False
+
+    def _maybe_swap(self):
+        if not self.swapped and self.tell() >= self._end:
+            self.swapped = True
+            pos = self.tell()
+            self.seek(0)
+            self.write(self._second)
+            self.seek(pos)
+            self._agg.count("toctou_swaps")
+
+    def read(self, *a):
+        r = super().read(*a)
+        self._maybe_swap()
+        return r
+
+    def readline(self, *a):
+        r = super().readline(*a)
+        self._maybe_swap()
+        return r
+
+    def readinto(self, b):
+        r = super().readinto(b)
+        self._maybe_swap()
+        return r
+
+
+# pairs (analysed, swapped-in) of equal length; both harmless, both decodable
+PASS_SWAP_PAIRS = [
+    ("earlier-constant", b"cvp_sink\nhit\n(S'AAAA'\ntR.", b"cvp_sink\nhit\n(S'BBBB'\ntR."),
+    ("earlier-global", b"cvp_sink\nhit\n(K\x01tR.", b"cvp_sink\nhot\n(K\x01tR."),
+    ("earlier-binunicode", b"\x80\x02]q\x00(X\x04\x00\x00\x00aaaaq\x01K\x01e.", b"\x80\x02]q\x00(X\x04\x00\x00\x00bbbbq\x01K\x01e."),
+    ("safe-to-call", b"\x80\x02(X\x03\x00\x00\x00abcX\x06\x00\x00\x00defghiK\x01l.", b"\x80\x02cvp_sink\nhit\n(X\x02\x00\x00\x00zztR0N."),
+    ("last-opcode-inst", b"(S'x'\nivp_sink\nhit\n.", b"(S'x'\nivp_sink\nhot\n."),
+    ("last-opcode-string", b"X\x04\x00\x00\x00aaaa.", b"X\x04\x00\x00\x00bbbb."),
+]
+
+
 def run_case(ctx, mods, watch, label, data, thr, path, kind, fault=None, swap=False):
     fickling, f, analysis, loader, hook, U = mods
+    if isinstance(swap, (tuple, list)):
+        run_case.second = bytes.fromhex(swap[1]) if isinstance(swap[1], str) else swap[1]
+        swap = swap[0]
     agg = ctx.agg
     key = h(repr((data, thr, path, kind, fault, swap)).encode())
     # independent verdict
@@ -217,11 +267,15 @@ def run_case(ctx, mods, watch, label, data, thr, path, kind, fault=None, swap=Fa
         agg.inconclusive.append(f"harness bug: input {label} does not pass the load_for_real gate")
         return
     w = {"label": label, "hex": data.hex(), "threshold": thr, "path": path, "stream": kind, "fault": fault,
-         "swap": swap, "verdict": verdict}
-    stream, swapper, cleanup = make_stream(ctx, kind, data)
-    if swap and swapper is None:
-        cleanup()
-        return
+         "swap": swap if swap != "after-first-pass" else ["after-first-pass", run_case.second.hex()], "verdict": verdict}
+    if swap == "after-first-pass":
+        stream = PassSwapStream(data, run_case.second, agg)
+        swapper, cleanup = None, stream.close
+    else:
+        stream, swapper, cleanup = make_stream(ctx, kind, data)
+        if swap and swapper is None:
+            cleanup()
+            return
     eff_thr = thr if path == "loader" else "LIKELY_SAFE"
     sev = getattr(analysis.Severity, thr)
     undo = []
@@ -229,7 +283,29 @@ def run_case(ctx, mods, watch, label, data, thr, path, kind, fault=None, swap=Fa
     try:
         if fault is not None:
             undo.append(install_fault(mods, fault, fired))
-        if swap:
+        captured = {"analysed": None, "executed": []}
+        orig_analyze0 = analysis.Analyzer.analyze
+
+        def analyze_capture(self, pickled):
+            captured["analysed"] = [(op.info.name, op.arg) for op in pickled]
+            captured["analysed_bytes"] = pickled.dumps()
+            return orig_analyze0(self, pickled)
+        analysis.Analyzer.analyze = analyze_capture
+        undo.append(lambda: setattr(analysis.Analyzer, "analyze", orig_analyze0))
+        real_pickle = loader.pickle
+
+        class PickleProxy:
+            def __getattr__(self, n):
+                return getattr(real_pickle, n)
+
+            def loads(self, data, *a, **k):
+                captured["executed"].append(bytes(data))
+                return real_pickle.loads(data, *a, **k)
+        loader.pickle = PickleProxy()
+        undo.append(lambda: setattr(loader, "pickle", real_pickle))
+        if swap == "after-first-pass":
+            pass
+        elif swap:
             orig_analyze = analysis.Analyzer.analyze
 
             def analyze_then_swap(self, pickled):
@@ -268,6 +344,34 @@ def run_case(ctx, mods, watch, label, data, thr, path, kind, fault=None, swap=Fa
         hook.remove_hook()
         cleanup()
     agg.count("gate_checks")
+    if swap == "after-first-pass" and captured.get("analysed_bytes") is not None:
+        # the stream changed under the parser: "the bytes analysed" are whatever fickling handed to its
+        # analyser; the gate and the comparison with the stock unpickler are judged against those
+        analysed = captured["analysed_bytes"]
+        try:
+            real_an = orig_analyze0
+            verdict = analysis.check_safety(f.Pickled.load(analysed)).severity.name
+        except Exception:
+            verdict = None
+        w["verdict"] = verdict
+        if not load_for_real_ok(analysed):
+            agg.inconclusive.append("harness: pass-swap mixture fails the load_for_real gate")
+            return
+    if captured["executed"] and captured["analysed"] is not None:
+        agg.count("executed_vs_analysed_compared")
+        try:
+            ex = [(o.name, a) for o, a, _ in pickletools.genops(captured["executed"][-1])]
+        except Exception:
+            ex = None
+        an = captured["analysed"]
+        if ex != an:
+            idx = next((i for i, (x, y) in enumerate(zip(ex or [], an)) if x != y), min(len(ex or []), len(an)))
+            last = len(an) - 2
+            where = "last-opcode-before-stop" if idx == last else "earlier-opcode"
+            agg.violation(f"executed-not-analysed:{where}",
+                          f"the bytes handed to the unpickler decode to {str((ex or [None] * (idx + 1))[idx])[:80]} at opcode {idx} "
+                          f"where the analysed program has {str(an[idx] if idx < len(an) else None)[:80]}",
+                          dict(w, second_hex=getattr(run_case, "second", b"").hex() if swap == "after-first-pass" else None))
     if fault is not None:
         if fired:
             agg.count("failpoints_fired")
@@ -453,6 +557,11 @@ def cases(ctx, mods):
                         if tier == "quick" and excn not in ("ValueError", "RecursionError", "MemoryError") and path != "loader":
                             continue
                         yield label, data, "OVERTLY_MALICIOUS" if path == "loader" else "LIKELY_SAFE", path, "bytesio", (site, excn, k), False
+    # 4a. TOCTOU: content replaced right after the first pass over the stream has read through STOP
+    for name, first, second in PASS_SWAP_PAIRS:
+        for path in paths[:3]:
+            for thr in (["LIKELY_SAFE", "OVERTLY_MALICIOUS"] if path == "loader" else ["LIKELY_SAFE"]):
+                yield "passswap-" + name, first, thr, path, "pass-swap", None, ("after-first-pass", second)
     # 4. TOCTOU
     for label, data in benign[:30 if tier == "quick" else 300] + [x for x in flagged if x[0].startswith(("suspicious", "unsafe-sink-REDUCE-result"))]:
         for path in paths[:3]:
